@@ -70,6 +70,10 @@ impl Root {
 
     /// Disposes of all the resources held on by this root and resets the state.
     pub fn reinit(&'static self) {
+        // Cleanup callbacks can use the reactive API (e.g. create a signal): this root is the
+        // current root while they run.
+        let prev = Root::set_global(Some(self));
+
         // Dispose the root node.
         NodeHandle(self.root_node.get(), self).dispose();
 
@@ -82,9 +86,8 @@ impl Root {
         self.batching.set(false);
 
         // Create a new root node.
-        Root::set_global(Some(self));
         let root_node = create_child_scope(|| {});
-        Root::set_global(None);
+        Root::set_global(prev);
         self.root_node.set(root_node.0);
         self.current_node.set(root_node.0);
     }
